@@ -217,4 +217,24 @@ PROPS = {
         'assumptions': ['ctrl/negctrl-modified calls are outside the rule (the property states it for unmodified and inv/pow-modified calls)'],
         'partial': ['symbol lookup and scope tracking are inputs of the model (they are C07/C19); tied by correspondence only'],
     },
+    'C07': {
+        'coq': 'Props/C07.v',
+        'families': [
+            {'name': 'scope', 'args': {'quick': ['--random', 6000], 'thorough': ['--random', 400000]},
+             'shards': {'quick': 16, 'thorough': 16}, 'driver_args': []},
+        ],
+        'exhaustive': {'quick': False, 'thorough': False},
+        'rule': 'programs of 2-11 top-level statements nested to depth 1-5 over the name pool {a, b, pi, U, h, x} (user names, a built-in '
+                'constant, the built-in gate, two standard gate names) plus fresh gate/def names: declarations (int, float, const, qubit, with '
+                'initializer expressions), assignments (plain and indexed), expression statements, gate calls with parameters and (indexed) '
+                'operands, measure/reset/barrier, if/else, while, for over ranges and sets (loop variable from the pool), switch with cases '
+                'and default, gate and def definitions with parameters from the pool, def calls, include "stdgates.inc" at a random '
+                'position; every symbol reference of the graph (in analysis order) and the ordered list of '
+                'UndefVar/UndefGate/Redeclaration diagnostics are compared with the model; non-trivial = more than 3 declarations/uses',
+        'trusted_base': ['Model/Scoping.v, Model/SymTab.v (hand-written)',
+                         'the harness generator states, per construct, the order in which the analyser declares and looks up names (its '
+                         'items list); the reader of the graph (Debug rendering) knows the field order of each node'],
+        'assumptions': ['the for-loop variable and the loop body share one scope, and a gate/def body shares the scope of its parameters (as implemented)'],
+        'partial': ['statement -> operations mapping and storage of results in the graph: correspondence only'],
+    },
 }
